@@ -33,7 +33,7 @@ ASSUMPTIONS = [
     "base table of 3 rows (thorough 4) plus one (thorough two) foreign rows that growth operations may add once; row cap 4 (thorough 6)",
     "specifications outside the documented parameter types (a polars boolean Series passed to subset) may either work correctly or raise",
     "orientations compared to 1e-5 rad (float32 rotation vectors in data-frame round trips)",
-    "added during the seeding waves: accumulator idioms, a same-object family (read-only operations x in-place updates incl. axis vectors), tables without features / with a feature of another dtype through concat, concat_with, append (all ordered pairs; thorough: triples)",
+    "added during the seeding waves: cutby / group_by on a key with nulls or NaNs (rejected loudly or a partition), accumulator idioms, a same-object family (read-only operations x in-place updates incl. axis vectors), tables without features / with a feature of another dtype through concat, concat_with, append (all ordered pairs; thorough: triples)",
 ]
 
 
